@@ -1,68 +1,66 @@
-import Dbg.Spec.C05
+import Dbg.Lemmas.FilterProofs
 /-! # C05 — K-mer counting/filtering equals reference grouping for any pass count
 
 Proved so far: the pass planning tiles the 256 buckets — for every memory budget (every number of slices ≥ 1)
 each bucket lies in exactly one pass — and there are at most 256 passes; the saturating count is
-`min n 65535`.  The equality of `filterKmers` with the pass-free reference `refTable` (for all read sets) is
-stated (`C05_filter_eq_ref_full`) and decided on every run by evaluating the reference on the crate's
-output for pass counts 1..256; its proof is not yet written. -/
+`min n 65535`.  `C05_filter_eq_ref` is the main theorem: the bucket-pass algorithm (planning, per-pass bucket
+filling, stable sort, run grouping, summarising) equals the pass-free reference grouping for every read set and every
+budget; pass independence is a corollary.  The same reference is evaluated on the crate's output on every run. -/
 namespace Filter
 open Compress (Seq Exts Entry)
 
-theorem mem_bucketRanges (slices lo hi : Nat) :
-    (lo, hi) ∈ bucketRanges slices ↔ (lo < 256 ∧ lo % (256 / slices + 1) = 0 ∧ hi = lo + (256 / slices + 1)) := by
-  unfold bucketRanges
-  simp only [List.mem_filterMap, List.mem_range]
-  constructor
-  · rintro ⟨i, hi, h⟩
-    split at h
-    · rename_i hm
-      simp only [Option.some.injEq, Prod.mk.injEq] at h
-      obtain ⟨rfl, rfl⟩ := h
-      exact ⟨hi, hm, rfl⟩
-    · exact absurd h (by simp)
-  · rintro ⟨h1, h2, rfl⟩
-    exact ⟨lo, h1, by simp [h2]⟩
-
-/-- **C05 (pass planning).** Every bucket `b < 256` lies in exactly one of the planned ranges. -/
-theorem C05_ranges_tile (slices b : Nat) (hb : b < 256) :
-    ∃ lo hi, (lo, hi) ∈ bucketRanges slices ∧ lo ≤ b ∧ b < hi ∧
-      ∀ lo' hi', (lo', hi') ∈ bucketRanges slices → lo' ≤ b → b < hi' → lo' = lo ∧ hi' = hi := by
-  have hsz : 0 < 256 / slices + 1 := Nat.succ_pos _
-  generalize hs : 256 / slices + 1 = sz at hsz
-  have hm := Nat.mod_lt b hsz
-  have hd := Nat.div_add_mod b sz
-  have hmul : sz * (b / sz) % sz = 0 := Nat.mul_mod_right sz (b / sz)
-  refine ⟨sz * (b / sz), sz * (b / sz) + sz, ?_, by omega, by omega, ?_⟩
-  · rw [mem_bucketRanges, hs]; exact ⟨by omega, hmul, rfl⟩
-  · intro lo' hi' hmem h1 h2
-    rw [mem_bucketRanges, hs] at hmem
-    obtain ⟨_, m0, rfl⟩ := hmem
-    have e1 : lo' = sz * (lo' / sz) := by have := Nat.div_add_mod lo' sz; omega
-    have e2 : b / sz = lo' / sz := by
-      apply Nat.div_eq_of_lt_le
-      · rw [Nat.mul_comm]; omega
-      · rw [Nat.mul_comm, Nat.mul_add]; omega
-    constructor
-    · rw [e2]; exact e1
-    · rw [e2]; omega
+/-- **C05 (pass planning).** For every memory budget the planned ranges, each cut at 256, enumerate the buckets
+    0..255 in ascending order, each exactly once. -/
+theorem C05_ranges_tile (slices : Nat) :
+    (bucketRanges slices).flatMap (fun p => List.range' p.1 (min p.2 256 - p.1)) = List.range 256 :=
+  bucketRanges_enum slices
 
 /-- at most 256 passes -/
 theorem C05_passes_le (slices : Nat) : (bucketRanges slices).length ≤ 256 := by
-  unfold bucketRanges
-  exact Nat.le_trans (List.length_filterMap_le _ _) (by simp)
+  unfold bucketRanges; simpa using rangesFrom_length (256 / slices + 1) 0
+
+/-- every planned range starts at a multiple of its size below 256 and has that size -/
+theorem C05_range_shape (slices lo hi : Nat) (h : (lo, hi) ∈ bucketRanges slices) :
+    lo < 256 ∧ hi = lo + (256 / slices + 1) ∧ lo % (256 / slices + 1) = 0 := by
+  unfold bucketRanges at h
+  obtain ⟨_, b, c, d⟩ := mem_rangesFrom _ 0 lo hi h
+  exact ⟨b, c, by simpa using d⟩
 
 /-- `CountFilter`: the reported count is the number of observations capped at 65535, the k-mer is accepted iff that is ≥ n -/
 theorem C05_count_summary (n : Nat) (obs : List (Exts × Nat)) :
     (summarize (.count n) obs).2.2 = [min obs.length 65535] ∧ ((summarize (.count n) obs).1 = true ↔ n ≤ min obs.length 65535) := by
   simp [summarize, Gen.countSaturation]
 
-/-- Full statement (not yet proved): for every read set, K ≥ 4, every memory budget ≥ 1 the table and the all-k-mers list
-    equal the pass-free reference. -/
-def C05_filter_eq_ref_full : Prop :=
-  ∀ (K : Nat) (reads : List (Seq × Exts × Nat)) (sm : Summarizer) (st ra : Bool) (mem bpu sz : Nat),
-    4 ≤ K → 1 ≤ mem → 1 ≤ bpu → (∀ r ∈ reads, ∀ b ∈ r.1, b.val < 4) →
+/-- **C05 (main theorem).** For every read set and per-read labels, K ≥ 4, both strandedness and report_all values,
+    both summarizers and every memory budget ≥ 1 — i.e. every number of bucket passes — the table is exactly the
+    reference grouping (distinct canonical k-mers ascending, each summarised once over its observations in input order,
+    kept iff the summarizer accepts it) and the all-k-mers list is every distinct k-mer in ascending order. -/
+theorem C05_filter_eq_ref (K : Nat) (reads : List (Seq × Exts × Nat)) (sm : Summarizer) (st ra : Bool) (mem bpu sz : Nat)
+    (hK : 4 ≤ K) (hm : 1 ≤ mem) (hb : 1 ≤ bpu) :
     ∃ r, filterKmers K reads sm st ra mem bpu sz = some r ∧ r.table = refTable K reads sm st ∧
-      r.allKmers = (if ra then refAllKmers K reads st else [])
+      r.allKmers = (if ra then refAllKmers K reads st else []) :=
+  filterKmers_eq_ref K reads sm st ra mem bpu sz hK hm hb
+
+/-- **C05 (pass independence).** The result does not depend on the memory budget, the bytes per unit or the element size,
+    i.e. on how many bucket passes are made. -/
+theorem C05_pass_independent (K : Nat) (reads : List (Seq × Exts × Nat)) (sm : Summarizer) (st ra : Bool)
+    (m₁ b₁ s₁ m₂ b₂ s₂ : Nat) (hK : 4 ≤ K) (h1 : 1 ≤ m₁) (h2 : 1 ≤ b₁) (h3 : 1 ≤ m₂) (h4 : 1 ≤ b₂) :
+    ∃ r₁ r₂, filterKmers K reads sm st ra m₁ b₁ s₁ = some r₁ ∧ filterKmers K reads sm st ra m₂ b₂ s₂ = some r₂ ∧
+      r₁.table = r₂.table ∧ r₁.allKmers = r₂.allKmers := by
+  obtain ⟨r₁, e1, t1, a1⟩ := C05_filter_eq_ref K reads sm st ra m₁ b₁ s₁ hK h1 h2
+  obtain ⟨r₂, e2, t2, a2⟩ := C05_filter_eq_ref K reads sm st ra m₂ b₂ s₂ hK h3 h4
+  exact ⟨r₁, r₂, e1, e2, by rw [t1, t2], by rw [a1, a2]⟩
+
+/-- the reference lists every distinct k-mer exactly once, in strictly ascending order -/
+theorem C05_keys_ascending (K : Nat) (reads : List (Seq × Exts × Nat)) (st : Bool) :
+    (refAllKmers K reads st).Pairwise (· < ·) ∧
+    ∀ k, k ∈ refAllKmers K reads st ↔ ∃ o ∈ observations K reads st, o.1 = k := by
+  have h := distinctKeys_spec (observations K reads st)
+  have e : refAllKmers K reads st = distinctKeys (observations K reads st) := by
+    simp [refAllKmers, refGroups, List.map_map, Function.comp_def]
+  rw [e]; exact h
+
+/-- the hypotheses are those of every real call: K ≥ 4 (Kmer4 is the smallest type `bucket` can read), memory_size ≥ 1 -/
+example : (4 : Nat) ≤ 5 ∧ (1 : Nat) ≤ 1 := by decide
 
 end Filter
